@@ -532,6 +532,20 @@ func (fr *Frame) lookupName(name string, e *Env) (TV, bool) {
 			return TV{T: fr.val(p), Ty: p.Type()}, true
 		}
 	}
+	// an inlined closure may be specified in terms of its enclosing function's variables
+	if fr.parent != nil && fr.fn.Parent() != nil {
+		for pf := fr.parent; pf != nil; pf = pf.parent {
+			if pf.fn == fr.fn.Parent() {
+				pe := *e
+				pe.fr = pf
+				pe.at = nil
+				pe.subst = nil
+				pe.loopHead = nil
+				pe.atStart = false
+				return pf.lookupName(name, &pe)
+			}
+		}
+	}
 	return TV{}, false
 }
 
